@@ -72,6 +72,8 @@ def features(cfg):
             f += ("rgd",)
         if not cfg["embed_desc"]:
             f += ("nodesc",)
+        if cfg.get("compressed_grains"):
+            f += ("packed",)
         if cfg.get("stream_pad", "tight") != "tight":
             f += ("pad_" + cfg["stream_pad"],)
     return f
